@@ -44,7 +44,7 @@ def main (paths : List String) : IO UInt32 := do
           if flagsExplained func op o n then ok := ok + 1 else bad := s!"{path}: flags transition not a step of BlockP: {line}" :: bad
         else
           nperf := nperf + 1
-          let isInvoke := func == "_dispatch_block_async_invoke2" || func == "_dispatch_block_sync_invoke" || func == "_dispatch_block_invoke_direct"
+          let isInvoke := func == "_dispatch_block_async_invoke2" || func == "_dispatch_block_sync_invoke" || func == "_dispatch_block_invoke_direct" || func == "_dispatch_block_first_completion"      -- the counting helper of the three (F40)
           match step { performed := o, completers := [tid] } tid .completed .invoke with
           | [(s', pc')] =>
             if isInvoke && op == 5 && s'.performed == n && (pcs.lookup (id, tid)).isNone then
